@@ -34,6 +34,13 @@ def main(ctx):
         jobs.append({"spec": {"kind": "shipped", "name": name, "end": 1e6,
                               "overrides": {"OxygenIndicator": {"charge_values": "0, -1, 0"}}},
                      "props": list(PROPS), "seed": ctx.seed * 1000 + 77, "max_events": slow_ev, "label": name + "(negative filter charge)"})
+    # two cell-occupancy systems in one run (molecules on the charge level, oxygens on the Lennard-Jones level) with enough
+    # molecules for surplus units in both: the systems must not share any bookkeeping
+    for k, (name, n) in enumerate([("water/coulomb_cell_veto_lj_cell_veto", 24), ("water/coulomb_power_bounded_lj_cell_bounded", 16)]):
+        jobs.append({"spec": {"kind": "shipped", "name": name, "end": 1e6,
+                              "overrides": {"RandomInputHandler": {"number_of_root_nodes": n}}, "min_event_handlers": 6 * n},
+                     "props": list(PROPS), "seed": ctx.seed * 1000 + 80 + k, "max_events": ctx.pick(600, 6000),
+                     "label": name + f"({n} molecules)"})
     # directed: start lattice, chain length and cell side commensurate -> legs end exactly on cell faces (time ties between
     # the end-of-chain / lifting event and the cell-boundary event)
     for s in range(ctx.pick(4, 16)):
